@@ -18,7 +18,7 @@ const SIGMA: [&str; 7] = ["?", "#", "&", "=", "a", "b", "é"];
 /// compared exactly), and a multi-character key that gives a pattern-less removeparam rule an
 /// index token
 const SIGMA2: [&str; 9] = ["?", "#", "&", "=", "a", "b", "é", "A", "utm"];
-const POOL: [&str; 10] = [
+const POOL: [&str; 11] = [
     "*$removeparam=a",
     "*$removeparam=b",
     "||x.com^$removeparam=a,image",
@@ -29,6 +29,8 @@ const POOL: [&str; 10] = [
     "$removeparam=utm",
     "*$removeparam=b,~xhr",
     "*$removeparam=a,script,~image",
+    // `important` on a removeparam rule does not make it a blocking rule
+    "*$removeparam=b,important",
 ];
 
 /// Independent applicability of the pool's removeparam rules (written from the option semantics,
@@ -38,7 +40,7 @@ fn removes(rule: &str, ty: &str, src: &str) -> Option<&'static str> {
     let default_types = ["document", "subdocument", "xhr"];
     match rule {
         "*$removeparam=a" if default_types.contains(&ty) => Some("a"),
-        "*$removeparam=b" if default_types.contains(&ty) => Some("b"),
+        "*$removeparam=b" | "*$removeparam=b,important" if default_types.contains(&ty) => Some("b"),
         "||x.com^$removeparam=a,image" if ty == "image" => Some("a"),
         "*$removeparam=a,domain=y.com" if default_types.contains(&ty) && src.contains("://y.com") => Some("a"),
         "$removeparam=utm" if default_types.contains(&ty) => Some("utm"),
